@@ -13,7 +13,7 @@ _mem = {}
 def _src_hash():
     h = hashlib.sha256()
     d = os.path.dirname(os.path.abspath(__file__))
-    for f in ("grammar_ai.py", "grammar_run.py", "kernel.py", os.path.join("..", "spec", "valid_prefixes.json")):
+    for f in ("grammar_ai.py", "grammar_run.py", "kernel.py", os.path.join("..", "spec", "valid_prefixes.json"), os.path.join("..", "spec", "mandatory_operands.json")):
         with open(os.path.join(d, f), "rb") as fh:
             h.update(fh.read())
     return h.hexdigest()[:16]
@@ -131,10 +131,24 @@ def get(prog):
         for fn, args in ((ITEM, (grammar_ai.PARSER, grammar_ai.B_F)), (STMT, (grammar_ai.PARSER,))):
             if fn in prog.bodies:
                 pref_keys[(tuple(toks), fn)] = _run(fn, win=w, args=args)
+    # ---- mandatory-operand probes (C05.3): windows that must be rejected
+    mand_keys = {}
+    try:
+        mprobes = _json.load(open(os.path.join(os.path.dirname(os.path.dirname(os.path.abspath(__file__))), "spec", "mandatory_operands.json")))["probes"]
+    except Exception:
+        mprobes = []
+    for e in mprobes:
+        toks = e["tokens"]
+        if not all(t in ai.kdisc for t in toks) or e["fn"] not in prog.bodies:
+            mand_keys[(e["fn"], tuple(toks))] = None
+            continue
+        w = tuple((1 << ai.kdisc[toks[i]]) if i < len(toks) else A for i in range(4)) + (0, 0)
+        mand_keys[(e["fn"], tuple(toks))] = _run(e["fn"], win=w, args=(grammar_ai.PARSER,))
     r = GResult()
     r.cache_hit = False
     r.wall = time.time() - t0
     r.stats = dict(ai.stats)
+    r.mandatory_probe = {k: (sorted(set((o[1], o[2]) for o in ai.memo[k0])) if k0 is not None else None) for k, k0 in mand_keys.items()}     # (consumed, error)
     r.alphabet = ai.alphabet
     r.alphabet_sources = ai.alphabet_sources
     r.kname = ai.kname
